@@ -774,6 +774,11 @@ package server
 // Rename asks the same search (declarations included) and turns every location into one edit carrying the new name,
 // filed under the location's own URI: every edit is the edit of a location, and every URI gets as many edits as it has
 // locations.
+// prepare-rename answers with the range of the symbol under the cursor (the same search as rename).
+//@ func (*Server).PrepareRename
+//@   props C09 C08
+//@   requires s != nil && params != nil && DocSmall(s, params.TextDocument.URI)
+//@   requires hasDoc(s, params.TextDocument.URI) ==> len(docOf(s, params.TextDocument.URI)) < 1073741820
 //@ specdef cntLoc(ls []protocol.Location, i int, u protocol.DocumentURI) int := ite(i <= 0, 0, cntLoc(ls, i - 1, u) + ite(ls[i - 1].URI == u, 1, 0))
 //@ func (*Server).Rename
 //@   props C09
